@@ -180,6 +180,36 @@ def judge_bad(res, tp, pl, fmt, ext, history, witness, kind):
     res.count("bad-build-leaves-directory-alone:" + fmt)
 
 
+# what may stand between the two out statements of a file, and how the second one's value is computed: every one of
+# these evaluates something in between (a call, a module, a callback, a template expression, an import) and none
+# of them makes the second out statement legal
+TWO_OUT_PRELUDE = ("let c14inc = func (x) => x + 1;\nlet c14id = func (x) => x;\n"
+                   "let c14mod = module {a = 1} => (r) { let r = mod.a + 1; };\n")
+BETWEEN = ["", "let y1 = 3;\n", "let y2 = c14inc(1);\n", "let y3 = c14mod{a = 2};\n",
+           "let y4 = map(func (x) => x + 1, [1, 2]);\n", "let y5 = filter(func (x) => x > 1, [1, 2]);\n",
+           "let y6 = reduce(func (acc, x) => acc + x, 0, [1, 2]);\n", "let y7 = \"@\" % (1 + 1);\n",
+           "let y8 = \"@{item.a}\" % {a = 1};\n", "let y9 = import \"c14lib.ucg\";\n",
+           "let y10 = select (true, 0) => {true = c14inc(1)};\n", "assert {ok = c14inc(1) == 2, desc = \"d\"};\n",
+           "let y11 = import \"std/lists.ucg\";\nlet y12 = y11.len([1, 2]);\n",
+           "let y13 = convert json c14id({a = 1});\n", "let y14 :: 1 = c14inc(1);\n"]
+SECOND_VALUE = ["%s", "%s", "c14id(%s)", "select (c14inc(1) == 2, 0) => {true = %s}"]
+
+
+def judge_two(res, tp, pl, prog, witness):
+    tp.write(pl.src, prog)
+    ev = build(tp, pl)
+    if ev["exit"] == 0:
+        res.violation(["second-out-accepted"], witness, {"stdout": ev["stdout"][:200]})
+    elif ev["exit"] == 1:
+        if "one output per file" in ev["stdout"] + ev["stderr"]:
+            res.count("second-out-rejected")
+        else:
+            res.count("two-out-file-fails-otherwise")
+            res.notes.append("two-out file failed with another message: %s" % (ev["stdout"] + ev["stderr"])[-160:])
+    else:
+        res.violation(["two-out-build-crashes"], witness, {"exit": ev["exit"], "stderr": ev["stderr"][-300:]})
+
+
 def task(args):
     seed, idx, count = args
     r = core.rng_for(seed, "c14", idx)
@@ -279,12 +309,15 @@ def task(args):
                     res.count("zero-out-ok")
             elif scenario == "two-outs":
                 other = r.choice([f for f in fmts if f in GOOD])
-                tp.write(pl.src, "let v = %s;\nout %s v;\nout %s %s;\n" % (good_t, fmt, other, expr_text(GOOD[other](r)) if c03.lit_ok(GOOD[other](r)) else "{a = 1}"))
-                ev = build(tp, pl)
-                if ev["exit"] == 0:
-                    res.violation(["second-out-accepted"], witness, {"stdout": ev["stdout"][:200]})
-                elif ev["exit"] == 1:
-                    res.count("second-out-rejected")
+                ov = GOOD[other](r)
+                other_t = expr_text(ov) if c03.lit_ok(ov) else "{a = 1}"
+                between = r.choice(BETWEEN)
+                second = r.choice(SECOND_VALUE) % other_t
+                tp.write(os.path.join(os.path.dirname(pl.src), "c14lib.ucg"), "let w = 1;\n")
+                prog = TWO_OUT_PRELUDE + "let v = %s;\nout %s v;\n%sout %s %s;\n" % (good_t, fmt, between, other, second)
+                witness["program"] = prog
+                res.count("two-outs-between:" + (between.split("=")[0].strip() or "nothing"))
+                judge_two(res, tp, pl, prog, witness)
         if c < 1 and idx < 2:
             res.sample(witness)
     probe.stop()
@@ -311,6 +344,12 @@ def check_witness(w):
         fmt = w["format"]
         ext = convs[fmt]
         pl = Place(*w.get("place", ["f.ucg", ".", False]))
+        if w.get("program"):
+            with core.TempProject("c14r") as tp:
+                os.makedirs(tp.path("other"), exist_ok=True)
+                tp.write(os.path.join(os.path.dirname(pl.src), "c14lib.ucg"), "let w = 1;\n")
+                judge_two(res, tp, pl, w["program"], w)
+            return res
         with core.TempProject("c14r") as tp:
             os.makedirs(tp.path("other"), exist_ok=True)
             tp.write(pl.src, "let v = %s;\nout %s v;\n" % (w["good"], fmt))
